@@ -42,6 +42,9 @@ type timerEnv struct {
 	fired   bool
 	stopped bool
 	id      int
+	fn      *FuncVal // time.AfterFunc: firing starts a goroutine running fn
+	creator *Thread
+	ticks   int // time.Ticker: how many more times it may fire (0: a one-shot timer)
 }
 
 func (r *Run) newThread(name string) *Thread {
@@ -272,8 +275,18 @@ func (r *Run) schedule() {
 		if k >= len(en) {
 			te := envs[k-len(en)]
 			te.fired = true
-			te.ch.buf = append(te.ch.buf, r.zero(te.ch.typ.Elem()))
-			te.ch.bufvc = append(te.ch.bufvc, nil)
+			if te.ticks > 0 {
+				// a ticker keeps ticking (bounded: each tick is a nondeterministic environment step)
+				te.ticks--
+				te.fired = te.ticks == 0
+			}
+			switch {
+			case te.fn != nil:
+				r.spawnThread(te.creator, *te.fn, nil)
+			case len(te.ch.buf) < te.ch.cap:
+				te.ch.buf = append(te.ch.buf, r.zero(te.ch.typ.Elem()))
+				te.ch.bufvc = append(te.ch.bufvc, nil)
+			}
 			r.sched = append(r.sched, -1-te.id)
 			r.schedPartner = append(r.schedPartner, -1)
 			continue
